@@ -61,7 +61,8 @@ fn call(b: Builder, m: &mut Model, slot: usize, c: usize) -> Builder {
     // seeds 9000..9005: texts with NUL bytes in them (the constructors store them as they are), and blobs that are
     // protocol packets (a DHCP ACK padded to the BOOTP minimum of 300 bytes, the same ending exactly at its END option)
     let nul = (9000..9010).contains(&c);
-    let text = if nul { ["console=ttyS0\0root=/dev/sda1", "GRUB 2.12\0\0", "\0", "a\0", "\0\0x", "a\0b\0", "console=ttyS0 quiet ", " ", "x\t", "trailing\n"][c - 9000].to_string() } else { text };
+    // (texts 1 and 3 end in NUL and are 8 resp. 16 bytes long with it: the stored text ends on an 8-byte boundary)
+    let text = if nul { ["console=ttyS0\0root=/dev/sda1", "console\0", "\0", "GRUB 2.12~rc1-1\0", "\0\0x", "a\0b\0", "console=ttyS0 quiet ", " ", "x\t", "trailing\n"][c - 9000].to_string() } else { text };
     if nul && c >= 9006 {
         // an SMBIOS structure table: BIOS information (type 0) with two strings, system information (type 1), the
         // end-of-table structure (type 127); 9006 / 9008 with bytes behind it
